@@ -35,7 +35,7 @@ def md_tokens(md):
 
 def project_record(r):
     tags = {'_': 0}
-    for k in ('SM', 'RX', 'DS', 'TF'):
+    for k in ('SM', 'RX', 'DS', 'TF', 'af'):
         if r.has_tag(k):
             v = r.get_tag(k)
             tags[k] = v if isinstance(v, str) else int(v)
@@ -123,10 +123,17 @@ def read_tags(mol):
     return {'SM': mol['sample'], 'RX': mol['umi'], 'BC': mol['bc'], 'MX': 'scCHIC', 'LY': 'lib1'}
 
 
-def base_event(ref, mol, via, max_n, site):
+def base_event(ref, mol, via, max_n, site, assoc=None, cap=None):
+    """assoc: number of fragments the molecule accepted (the first `assoc` of the description; the others were refused
+    because of max_associated_fragments=cap and only count as overflow). TF = associated + overflow as write_tags defines it
+    for the source reads; af = associated."""
+    n = len(mol['frags'])
+    assoc = n if assoc is None else assoc
+    inside = dict(mol, frags=mol['frags'][:assoc])
     return {'ev': 'pseudo', 'via': via, 'maxN': -1 if max_n is None else int(max_n), 'chrom': mol['chrom'], 'strand': bool(mol['strand']),
-            'mol': {'SM': mol['sample'], 'RX': mol['umi'], 'DS': int(site), 'TF': len(mol['frags'])},
-            'reads': [{'start': m['start'], 'cigar': m['cigar'], 'seq': m['seq'], 'q': m['q']} for m in mapped_reads(mol)],
+            'mol': {'SM': mol['sample'], 'RX': mol['umi'], 'DS': int(site), 'TF': n, 'af': assoc},
+            'cap': 0 if cap is None else int(cap),
+            'reads': [{'start': m['start'], 'cigar': m['cigar'], 'seq': m['seq'], 'q': m['q']} for m in mapped_reads(inside)],
             'ref': ref_window(ref, mol), 'desc': {'frags': mol['frags'], 'bc': mol['bc']}}
 
 
@@ -152,13 +159,17 @@ class Env:
         reads = molgen.build_reads(self.hdr, self.ref, mol['chrom'], 'site', mol['frags'][0], tags=read_tags(mol))
         return self.CHICFragment(reads, assignment_radius=100000, umi_hamming_distance=0).get_site_location()[1]
 
-    def api_case(self, mol, max_n, name, out_bam):
+    def api_case(self, mol, max_n, name, out_bam, cap=None):
         frs = self.fragments(mol)
-        m = self.CHICMolecule(frs[0], reference=self.fasta)
+        m = self.CHICMolecule(frs[0], reference=self.fasta, max_associated_fragments=cap)
         for f in frs[1:]:
-            if not m.add_fragment(f):
-                m._add_fragment(f)
-        assert len(m) == len(frs)
+            try:
+                if not m.add_fragment(f):
+                    m._add_fragment(f)
+            except OverflowError:     # what MoleculeIterator does: the fragment belongs to the molecule but is not taken
+                pass
+        assert len(m) + m.overflow_fragments == len(frs) and (cap is not None or len(m) == len(frs))
+        self.assoc = len(m)
         # the molecule's site as the molecule object reports it (its correctness is C09's subject; fragments of a CHIC
         # molecule may start at slightly different places and the molecule then moves its site)
         site = m.get_cut_site()[1]
@@ -182,8 +193,12 @@ def run_api(env, emit, mols_maxn, tid0, tag):
     path = os.path.join(os.getcwd(), 'c15_api_%s_%d.bam' % (tag, os.getpid()))
     raised, sites = {}, {}
     with pysam.AlignmentFile(path, 'wb', header=env.hdr) as out:
-        for k, (mol, max_n) in enumerate(mols_maxn):
-            ex, sites[k] = env.api_case(mol, max_n, 'cons_%d' % k, out)
+        assoc = {}
+        for k, item in enumerate(mols_maxn):
+            mol, max_n = item[0], item[1]
+            cap = item[2] if len(item) > 2 else None
+            ex, sites[k] = env.api_case(mol, max_n, 'cons_%d' % k, out, cap)
+            assoc[k] = env.assoc
             if ex:
                 raised[k] = ex
     got = {}
@@ -191,8 +206,9 @@ def run_api(env, emit, mols_maxn, tid0, tag):
         for r in f:
             got.setdefault(r.query_name, []).append(project_record(r))
     os.remove(path)
-    for k, (mol, max_n) in enumerate(mols_maxn):
-        e = base_event(env.ref, mol, 'api', max_n, sites[k])
+    for k, item in enumerate(mols_maxn):
+        mol, max_n = item[0], item[1]
+        e = base_event(env.ref, mol, 'api', max_n, sites[k], assoc[k], item[2] if len(item) > 2 else None)
         e['tid'] = tid0 + k
         if k in raised:
             e['raised'] = raised[k]
@@ -202,7 +218,7 @@ def run_api(env, emit, mols_maxn, tid0, tag):
     return tid0 + len(mols_maxn)
 
 
-def run_cli(env, emit, mols, no_source, with_ref, tid0, tag):
+def run_cli(env, emit, mols, no_source, with_ref, tid0, tag, cap=None):
     inp = os.path.join(os.getcwd(), 'c15_cli_%s_%d.bam' % (tag, os.getpid()))
     outp = os.path.join(os.getcwd(), 'c15_cli_%s_%d.out.bam' % (tag, os.getpid()))
     reads, names = [], set()
@@ -221,6 +237,9 @@ def run_cli(env, emit, mols, no_source, with_ref, tid0, tag):
         argv += ['-ref', env.fa]
     if no_source:
         argv.append('--no_source_reads')
+    if cap is not None:
+        # refused fragments are dropped (not written as one-fragment molecules of their own): one molecule per site
+        argv += ['-max_associated_fragments', str(cap), '--no_overflow']
     # the command line runs in its own process group under a timeout: on a worker exception the pool-based tagger can wait
     # forever, which is recorded as an observation ("raised": "Hang") instead of hanging the driver
     code = ('import sys\nimport singlecellmultiomics.universalBamTagger.bamtagmultiome as tm\n'
@@ -255,7 +274,7 @@ def run_cli(env, emit, mols, no_source, with_ref, tid0, tag):
     sites = [env.site_of(mol) for mol in mols]
     used = set()
     for i, mol in enumerate(mols):
-        e = base_event(env.ref, mol, via, None, sites[i])
+        e = base_event(env.ref, mol, via, None, sites[i], None if cap is None else min(cap, len(mol['frags'])), cap)
         e['tid'] = tid0 + i
         e['with_ref'] = bool(with_ref)
         if raised:
@@ -287,17 +306,21 @@ def main():
                 e = case['event']
                 mol = {'chrom': e['chrom'], 'frags': e['desc']['frags'], 'strand': e['strand'], 'sample': e['mol']['SM'],
                        'umi': e['mol']['RX'], 'bc': e['desc']['bc']}
+                cap = e.get('cap') or None
                 if e['via'] == 'api':
-                    run_api(env, emit, [(mol, None if e['maxN'] < 0 else e['maxN'])], 1, 'replay')
+                    run_api(env, emit, [(mol, None if e['maxN'] < 0 else e['maxN'], cap)], 1, 'replay')
                 else:
-                    run_cli(env, emit, [mol], e['via'] == 'cli_nosrc', e.get('with_ref', True), 1, 'replay')
+                    run_cli(env, emit, [mol], e['via'] == 'cli_nosrc', e.get('with_ref', True), 1, 'replay', cap)
                 return
             tid = 1
             n_api = 300 if tier == "quick" else 15000
             batch = []
             for k in range(n_api):
                 mol = gen_molecule(rng, env.ref, rng.randint(500, 100000), rng.choice(['chr1', 'chr2']))
-                batch.append((mol, rng.choice([None, None, 0, 1, 3, 10, 300])))
+                n = len(mol['frags'])
+                # every fifth molecule of >= 2 fragments exceeds a configured max_associated_fragments
+                cap = rng.randint(1, n - 1) if n >= 2 and rng.random() < 0.35 else None
+                batch.append((mol, rng.choice([None, None, 0, 1, 3, 10, 300]), cap))
             tid = run_api(env, emit, batch, tid, 'a')
             n_cli = 4 if tier == 'quick' else 60
             for k in range(n_cli):
@@ -308,7 +331,14 @@ def main():
                     mols.append(gen_molecule(rng, env.ref, site[chrom], chrom, same_start=True, max_frags=4))
                 for i, m in enumerate(mols):   # distinct UMIs: molecules are told apart by position anyway
                     m['umi'] = 'ACGT'[i % 4] + m['umi'][1:]
-                tid, hung = run_cli(env, emit, mols, no_source=(k % 2 == 1), with_ref=True, tid0=tid, tag='c%d' % k)
+                cap = None
+                if k % 4 == 2:
+                    # capped run: which fragments a molecule accepts depends on the tagger's read order, so every fragment of a
+                    # molecule is a copy of its first one - coverage and calls are then the same for any accepted subset
+                    cap = rng.randint(1, 2)
+                    for m in mols:
+                        m['frags'] = [json.loads(json.dumps(m['frags'][0])) for _ in range(rng.randint(cap + 1, cap + 3))]
+                tid, hung = run_cli(env, emit, mols, no_source=(k % 2 == 1), with_ref=True, tid0=tid, tag='c%d' % k, cap=cap)
                 if hung:        # every further run would only wait for the timeout again
                     break
     finally:
